@@ -12,6 +12,9 @@ Inductive case :=
 (* a handle returned by a builder for the operation described by s (the harness builds the real operation
    from the same description); its count is NOT read from the implementation *)
 | CBuilder (idx : Z) (s : opshape) (q : query) (obs : res (list (Z * Z)))
+(* ONE operation object o (in the state it was constructed in) handed to add_op / add / extend once per entry of
+   `uses` (the wire types of that use); obs is the query on the handle returned by use j *)
+| CReuse (idx : Z) (o : opobj) (uses : list (list wty)) (j : nat) (q : query) (obs : res (list (Z * Z)))
 | CPortEq (a b : port) (eq_obs hash_eq_obs : bool).
 
 Definition err_eqb (a b : err) : bool :=
@@ -57,6 +60,11 @@ Definition corr (c : case) : bool :=
   | CIndex idx n q obs => negb (speaks n q) || obs_eqb obs (tag idx (model_query n q))
   | CBuilder idx s q obs =>
       negb (speaks (builder_count s) q) || obs_eqb obs (tag idx (model_query (builder_count s) q))
+  | CReuse idx o uses j q obs =>
+      match reuse_count o uses j with
+      | Some n => negb (speaks (Some n) q) || obs_eqb obs (tag idx (model_query (Some n) q))
+      | None => false
+      end
   | CPortEq a b e h => Bool.eqb e (port_eqb a b)
   end.
 Definition mon (c : case) : bool :=
@@ -68,6 +76,18 @@ Definition mon (c : case) : bool :=
       shape_wf s &&
       match value_outputs s with
       | Some n => match spec_query (Some n) q with Some r => obs_eqb obs (tag idx r) | None => true end
+      | None => false
+      end
+  | CReuse idx o uses j q obs =>
+      (* the handle of use j must behave as one with exactly the value outputs of the operation wired as in use j,
+         whatever the object was used for before *)
+      forallb (use_wf (kind_of o)) uses &&
+      match nth_error uses j with
+      | Some ws =>
+          match use_outputs (kind_of o) ws with
+          | Some n => match spec_query (Some n) q with Some r => obs_eqb obs (tag idx r) | None => true end
+          | None => false
+          end
       | None => false
       end
   | CPortEq a b e h =>
